@@ -199,7 +199,7 @@ func TestVerifC30HTTP(t *testing.T) {
 		"supplied digest is compared after trim+lowercase (hex is case-insensitive)",
 		"leak detector looks for any 8-byte window of the random object in the response body; objects shorter than 8 bytes are not leak-checked on refusals")
 
-	n := r.N(500, 12000)
+	n := r.N(500, 15000)
 	sizes := []int{1, 2, 7, 8, 9, 100, 1000, 4096, 32767, 32768, 32769, 65536, 70001}
 	for ci := 0; ci < n; ci++ {
 		rng := r.Rand(ci)
